@@ -764,7 +764,7 @@ class AsynchronousRule(BaseRule):
             raise ValueError("either update_order or num_cells must be specified")
         self._apply_rule = apply_rule
         if update_order is not None:
-            self._update_order = update_order
+            self._update_order = list(update_order)
         else:
             self._init_update_order(num_cells)
             self._shuffle_update_order()
